@@ -148,9 +148,14 @@ func (t *Table) ReadFrom(r io.Reader) (int64, error) {
 	}
 	total := int64(n)
 	blocksCount := uint32(math.Ceil(float64(t.RowsCount) / float64(255)))
-	t.Blocks = make([][]byte, blocksCount)
-	t.BlockIndices = make([][]byte, blocksCount)
-	for i := range t.Blocks {
+	// the rows count is (possibly hostile) input: the block sums are collected as they arrive;
+	// once all of them did, as many index sums are justified
+	prealloc := blocksCount
+	if prealloc > 1024 {
+		prealloc = 1024
+	}
+	t.Blocks = make([][]byte, 0, prealloc)
+	for i := uint32(0); i < blocksCount; i++ {
 		n, b, err := t.readBlock(r)
 		if err != nil {
 			if errors.Is(err, io.EOF) {
@@ -159,8 +164,9 @@ func (t *Table) ReadFrom(r io.Reader) (int64, error) {
 			return 0, err
 		}
 		total += int64(n)
-		t.Blocks[i] = b
+		t.Blocks = append(t.Blocks, b)
 	}
+	t.BlockIndices = make([][]byte, blocksCount)
 	for i := range t.BlockIndices {
 		n, b, err := t.readBlock(r)
 		if err != nil {
